@@ -267,6 +267,12 @@ func (r *Route) weighTargets() {
 	if dynamic < 0 {
 		dynamic = 0
 	}
+	// fixed weights like 0.7, 0.2 and 0.1 use up everything although
+	// their floating point sum is a hair less than 1: the rest is not a
+	// share which earns a target a slot on the ring
+	if dynamic < 1e-9 {
+		dynamic = 0
+	}
 
 	// assign the actual weight to each target
 	for _, t := range r.Targets {
